@@ -242,11 +242,35 @@ def run(ctx, replay=None):
                 continue        # the oracle has reported it; nothing to compare the model with
             items.append(("obs_group %s %d %d [%s]" % ("Release" if c["release"] else "Debug", starts.get(gi, 0), c["max_pdi"][gi], "; ".join(coq_dev(d) for d in devs)), e))
             meta.append((ci, gi))
+    # one probing cycle per group against the model's ring of devices (Net/Commute.v); groups next to
+    # a group that failed with PdiTooLong are left to the oracle (the leftover FMMUs are foreign devices)
+    ncyc = 0
+    for ci, c in enumerate(cases):
+        if c["res"] != "Ok" or any(g["res"].startswith("PdiTooLong") for g in c["groups"]):
+            continue
+        gs = groups_of(c)
+        starts, order = starts_of(c)
+        for pr in c["probes"]:
+            gi = pr["group"]
+            if "regions" not in pr or c["groups"][gi]["res"] != "Ok":
+                continue
+            devs = [c["devs"][p] for p in gs[gi]]
+            regs = {r["pos"]: r for r in pr["regions"]}
+            mems = [list(bytes.fromhex(regs[p]["before"])) for p in gs[gi]]
+            after = [list(bytes.fromhex(regs[p]["after"])) for p in gs[gi]]
+            e = list(bytes.fromhex(pr["img_after"])) + [-7]
+            for a in after:
+                e += a + [-8]
+            items.append(("obs_cycle %s %d %d [%s] [%s] 4352 %s" % ("Release" if c["release"] else "Debug", starts.get(gi, 0), c["max_pdi"][gi], "; ".join(coq_dev(d) for d in devs),
+                                                                   "; ".join(vlib.gz(m) for m in mems), vlib.gz(list(bytes.fromhex(pr["img_before"])))), e))
+            meta.append((ci, "cycle %d" % gi))
+            ncyc += 1
+    stats["cycles_compared"] = ncyc
     nsh = 16
     texts = []
     for i in range(nsh):
         its = items[i::nsh]
-        texts.append("\n".join(["From EC Require Import Base.Prelude Base.Bytes Pd.Layout Wire.Check.", "Local Open Scope N_scope.",
+        texts.append("\n".join(["From EC Require Import Base.Prelude Base.Bytes Pd.Layout Net.Commute Wire.Check.", "Local Open Scope N_scope.",
                                 "Definition cs : list (list Z * list Z) := [" + ";\n".join("(%s, %s%%Z)" % (t, vlib.gz(e)) for t, e in its) + "].",
                                 "Eval vm_compute in (0, map fst (mismatches (fun x => x) cs 0))."]) + "\n")
     dis = 0
